@@ -1,5 +1,5 @@
 (** C33: idempotence of sync — after a successful forced run a second preview announces nothing. *)
-From ZV Require Import Lib.Base Model.LocalSync Proofs.LocalSync Proofs.LocalSyncConv.
+From ZV Require Import Lib.Base Model.LocalSync Proofs.LocalSync Proofs.LocalSyncConv Proofs.LocalSyncPartial Proofs.LocalSyncDup.
 
 (** planPrune looks repositories up by NORMALISED source (a final ".git" component dropped) in a map where a later
     spec overwrites an earlier one: the discovered repositories must not collide there. *)
@@ -116,34 +116,14 @@ Proof.
   destruct o; cbn in Hr, Hi |- *; try discriminate; apply IH; assumption.
 Qed.
 
-(** ---- the hypothesis [distinct_sources] is needed: a root that is itself a directory called ".git" (here it even
-    holds another ".git", so that it counts as a working tree named ".git") next to the working tree around it:
-    two discovered repositories, different names, different sources, but ONE normalised source.  The forced run
-    indexes both; the next preview (and every later one) announces the removal and the re-indexing of ".git". *)
-Definition twin_a : str := [97]%N.
-Definition twin_r1 : str := [114;49]%N.
-Definition twin_tree : node :=
-  NDir [ (twin_r1, NDir [ (twin_a, NDir [ (dot_git, NDir [ (dot_git, NDir []) ]) ]) ]) ].
-Definition twin_roots : list (list str) := [ [twin_r1; twin_a]; [twin_r1; twin_a; dot_git] ].
-Definition twin_src_a : str := abs_path [twin_r1; twin_a].
-Definition twin_src_g : str := abs_path [twin_r1; twin_a; dot_git].
-Definition twin_world : world_fp := [ (twin_src_a, Some 1%N); (twin_src_g, Some 2%N) ].
-
-Lemma sync_idempotent_needs_distinct_sources_w :
-  let f := run_sync Force twin_tree twin_world twin_roots [] in
-  let inv' := apply_ops [] (r_ops f) in
-  discover twin_tree twin_roots = Ok [ mkSpec dot_git twin_src_g; mkSpec twin_a twin_src_a ] /\
-  r_status f = 0%N /\
-  announced_removals (r_out (run_sync Dry twin_tree twin_world twin_roots inv')) = [ (dot_git, 0) ] /\
-  announced_indexing (r_out (run_sync Dry twin_tree twin_world twin_roots inv')) = [ dot_git ].
-Proof. vm_compute. repeat split; reflexivity. Qed.
+(** ---- [distinct_sources] holds for every successful discovery since fix 94727cf in /repo (discoverRepositories keys
+    its seen-sources map by the NORMALISED source, like planPrune): Proofs/LocalSyncDup.v [discover_ok_distinct_sources].
+    Before that fix a root that is itself a directory called ".git" holding another ".git", given next to the working
+    tree around it, produced two repositories with one normalised source and sync -f never converged. *)
+Lemma discover_distinct_sources tree roots specs : discover tree roots = Ok specs -> distinct_sources specs.
+Proof. exact (discover_ok_distinct_sources tree roots specs). Qed.
 
 (** ---- non-vacuity of [sync_idempotent]: the moved-repository state of Proofs/LocalSync.v *)
-Lemma moved_distinct_sources : forall specs, discover moved_tree moved_roots = Ok specs -> distinct_sources specs.
-Proof.
-  intros specs H. vm_compute in H. inversion H; subst. unfold distinct_sources. cbn [map sp_source].
-  repeat constructor; cbn; intuition discriminate.
-Qed.
 Lemma moved_inv_wf : wf moved_inv.
 Proof.
   constructor.
@@ -178,4 +158,175 @@ Proof.
   destruct H as (Hr & _ & _ & Hs).
   split; [apply run_remove_dry_ops|]. split; [exact Hr|].
   split; [apply (run_remove_no_index Dry)|]. split; [apply (run_remove_no_index Force)|exact Hs].
+Qed.
+
+(** ---- idempotence whatever the status of the forced run (some repositories cannot be indexed: E_INDEX) *)
+Definition indexable (w : world_fp) (s : spec) : bool :=
+  match fp_of w (sp_source s) with Some _ => true | None => false end.
+
+Lemma index_repos_force_failed w pruned : forall specs inv,
+  ir_failed (index_repos Force w pruned specs inv) = existsb (fun s => negb (indexable w s)) specs.
+Proof.
+  induction specs as [|s specs IH]; intros inv; [reflexivity|].
+  cbn [index_repos existsb]. destruct (fp_of w (sp_source s)) as [fp|] eqn:Efp.
+  - assert (Hi : indexable w s = true) by (unfold indexable; rewrite Efp; reflexivity). rewrite Hi. cbn [negb orb].
+    destruct (needs_index (sp_name s) fp inv).
+    + specialize (IH (apply_op inv (OpBuild (sp_name s) (sp_source s) fp))).
+      destruct (index_repos Force w pruned specs _) as [[ops out] e]. cbn in IH |- *. exact IH.
+    + specialize (IH inv). destruct (index_repos Force w pruned specs inv) as [[ops out] e]. cbn in IH |- *. exact IH.
+  - assert (Hi : indexable w s = false) by (unfold indexable; rewrite Efp; reflexivity). rewrite Hi.
+    destruct (index_repos Force w pruned specs inv) as [[ops out] e]. reflexivity.
+Qed.
+
+Lemma index_repos_dry_settled w inv : forall specs,
+  (forall s fp, In s specs -> fp_of w (sp_source s) = Some fp -> needs_index (sp_name s) fp inv = false) ->
+  index_repos Dry w [] specs inv =
+    ([], map utd_line (filter (indexable w) specs), existsb (fun s => negb (indexable w s)) specs).
+Proof.
+  induction specs as [|s specs IH]; intros H; [reflexivity|].
+  cbn [index_repos filter existsb].
+  rewrite IH by (intros x fp Hx; apply H; right; exact Hx).
+  destruct (fp_of w (sp_source s)) as [fp|] eqn:Efp.
+  - assert (Hi : indexable w s = true) by (unfold indexable; rewrite Efp; reflexivity). rewrite Hi.
+    unfold dry_decision. rewrite (H s fp (or_introl eq_refl) Efp). cbn [existsb]. rewrite Bool.andb_false_r. reflexivity.
+  - assert (Hi : indexable w s = false) by (unfold indexable; rewrite Efp; reflexivity). rewrite Hi. reflexivity.
+Qed.
+
+Lemma run_sync_force_status tree w roots inv specs :
+  discover tree roots = Ok specs -> existsb sh_bad inv = false ->
+  r_status (run_sync Force tree w roots inv) = if existsb (fun s => negb (indexable w s)) specs then E_INDEX else 0%N.
+Proof.
+  intros Ed Eb. unfold run_sync. rewrite Ed. unfold read_inventory. rewrite Eb. cbn [apply_removals].
+  pose proof (index_repos_force_failed w (map a_file (plan_prune specs inv)) specs
+     (apply_ops inv (map (fun a => OpRemoveShard (a_file a)) (plan_prune specs inv)))) as Hf.
+  unfold ir_failed in Hf.
+  destruct (index_repos Force w _ specs _) as [[ops out] e]. cbn in Hf. subst e.
+  destruct (existsb _ specs); reflexivity.
+Qed.
+
+Lemma ann_rem_utd l tl : (forall x, In x tl -> x = LPassF) -> announced_removals (map utd_line l ++ tl) = [].
+Proof.
+  intros H. induction l as [|s l IH]; cbn; [|exact IH].
+  induction tl as [|x tl IHt]; [reflexivity|]. cbn. rewrite (H x (or_introl eq_refl)). apply IHt. intros y Hy. apply H. right. exact Hy.
+Qed.
+Lemma ann_idx_utd l tl : (forall x, In x tl -> x = LPassF) -> announced_indexing (map utd_line l ++ tl) = [].
+Proof.
+  intros H. induction l as [|s l IH]; cbn; [|exact IH].
+  induction tl as [|x tl IHt]; [reflexivity|]. cbn. rewrite (H x (or_introl eq_refl)). apply IHt. intros y Hy. apply H. right. exact Hy.
+Qed.
+Lemma ann_utd_utd l tl : (forall x, In x tl -> x = LPassF) -> announced_up_to_date (map utd_line l ++ tl) = map sp_name l.
+Proof.
+  intros H. induction l as [|s l IH]; cbn; [|f_equal; exact IH].
+  induction tl as [|x tl IHt]; [reflexivity|]. cbn. rewrite (H x (or_introl eq_refl)). apply IHt. intros y Hy. apply H. right. exact Hy.
+Qed.
+
+(** preview; -f; preview — whatever the forced run's status, as long as discovery and the inventory succeed: the
+    second preview announces no removal and no indexing, reports exactly the repositories that can be indexed as
+    "Up to date", and ends with the same status as the forced run (0, or E_INDEX when some repository cannot be
+    opened — then it fails again for the same repositories). *)
+Theorem sync_idempotent_any_status : forall tree w roots inv specs,
+  wf inv -> discover tree roots = Ok specs -> distinct_sources specs -> existsb sh_bad inv = false ->
+  let f := run_sync Force tree w roots inv in
+  let d2 := run_sync Dry tree w roots (apply_ops inv (r_ops f)) in
+  announced_removals (r_out d2) = [] /\ announced_indexing (r_out d2) = [] /\
+  announced_up_to_date (r_out d2) = map sp_name (filter (indexable w) specs) /\
+  r_status d2 = r_status f /\ r_ops d2 = [].
+Proof.
+  intros tree w roots inv specs Hwf Ed Hds Eb. cbv zeta.
+  destruct (sync_force_partial tree w roots inv specs Hwf Ed Eb) as (Hwf' & Hall & Hidx).
+  set (inv' := apply_ops inv (r_ops (run_sync Force tree w roots inv))) in *.
+  assert (Hbad : existsb sh_bad inv' = false).
+  { destruct (existsb sh_bad inv') eqn:E; [|reflexivity]. apply existsb_exists in E as (sh & Hin & Hb).
+    destruct (Hall sh Hin) as (s & _ & _ & _ & Hg). congruence. }
+  assert (Hplan : plan_prune specs inv' = []).
+  { apply plan_prune_nil. intros sh Hin. destruct (Hall sh Hin) as (s & Hs & Hrepo & Hsrc & _).
+    unfold prune_action. rewrite Hsrc, (lookup_source_unique specs s Hds Hs), Hrepo, ls_str_eqb_refl. reflexivity. }
+  assert (Hdry : index_repos Dry w [] specs inv' =
+    ([], map utd_line (filter (indexable w) specs), existsb (fun s => negb (indexable w s)) specs)).
+  { apply index_repos_dry_settled. intros s fp Hs Efp. destruct (Hidx s fp Hs Efp) as [H0 Hfp].
+    unfold has_file in H0. destruct (find_file (sp_name s, 0) inv') as [sh|] eqn:Ef; [|discriminate].
+    destruct (find_file_some _ _ _ Ef) as [Hin Hf].
+    assert (Hrepo : sh_repo sh = sp_name s) by (rewrite <- (wf_name inv' Hwf' sh Hin), Hf; reflexivity).
+    unfold needs_index. rewrite Ef, Hrepo, ls_str_eqb_refl, (Hfp sh Hin Hrepo), N.eqb_refl. reflexivity. }
+  rewrite (run_sync_force_status tree w roots inv specs Ed Eb).
+  split; [|split; [|split; [|split]]]; try apply run_sync_dry_ops;
+    unfold run_sync; rewrite Ed; unfold read_inventory; rewrite Hbad, Hplan;
+    cbn [apply_removals map apply_ops fold_left]; rewrite Hdry;
+    destruct (existsb (fun s => negb (indexable w s)) specs); cbn [r_out r_status app pass_f];
+    try reflexivity.
+  - rewrite <- (app_nil_r (map utd_line _)). apply ann_rem_utd. intros x [].
+  - apply ann_rem_utd. intros x [<-|[]]. reflexivity.
+  - rewrite <- (app_nil_r (map utd_line _)). apply ann_idx_utd. intros x [].
+  - apply ann_idx_utd. intros x [<-|[]]. reflexivity.
+  - rewrite <- (app_nil_r (map utd_line _)). apply ann_utd_utd. intros x [].
+  - apply ann_utd_utd. intros x [<-|[]]. reflexivity.
+Qed.
+
+(** ---- remove; remove -f; remove: what the second preview announces (if anything) is still in the index and was
+    not among the removals the forced run performed *)
+Lemma remove_announced_in_inventory m sels inv : forall f,
+  In f (announced_removals (r_out (run_remove m sels inv))) -> m = Dry /\ In f (map sh_file inv).
+Proof.
+  intros f. unfold run_remove, read_inventory. destruct (existsb sh_bad inv); [destruct m; intros []|].
+  destruct (select_records (records inv) sels) as [sel|e|e]; [|destruct m; intros []..].
+  destruct m; cbn [apply_removals r_out pass_f].
+  - rewrite ann_rem_app, ann_rem_wouldremove. cbn. rewrite app_nil_r. intros Hin. split; [reflexivity|].
+    unfold remove_actions in Hin. induction inv as [|sh inv IH]; cbn in Hin; [contradiction|].
+    destruct (existsb (rkey_eqb (rkey_of sh)) sel); cbn in Hin |- *; [destruct Hin as [<-|Hin]|]; auto.
+  - rewrite app_nil_r. intros Hin. exfalso. induction (remove_actions sel inv) as [|a l IH]; cbn in Hin; auto.
+Qed.
+
+Theorem remove_second_preview : forall sels inv,
+  NoDup (map sh_file inv) -> r_status (run_remove Force sels inv) = 0%N ->
+  let f := run_remove Force sels inv in
+  let inv' := apply_ops inv (r_ops f) in
+  forall x, In x (announced_removals (r_out (run_remove Dry sels inv'))) ->
+    In x (map sh_file inv') /\ ~ In x (performed_removals (r_ops f)).
+Proof.
+  intros sels inv Hnd Hst. cbv zeta. intros x Hx.
+  apply remove_announced_in_inventory in Hx as [_ Hx]. split; [exact Hx|].
+  destruct (remove_force_exact sels inv Hnd Hst) as (sel & _ & _ & Hfin & Hperf).
+  rewrite Hfin in Hx. rewrite Hperf. intros Hin.
+  apply in_map_iff in Hx as (a & Ha & Hain). apply filter_In in Hain as [Hain Hna].
+  apply in_map_iff in Hin as (b & Hb & Hbin). apply filter_In in Hbin as [Hbin Hsb].
+  assert (a = b) by (apply (nodup_map_inj sh_file inv a b Hnd Hain Hbin); congruence).
+  subst b. rewrite Hsb in Hna. discriminate.
+Qed.
+
+(** ---- the statements without the [distinct_sources] hypothesis (discharged by [discover_distinct_sources]) *)
+Theorem sync_idempotent_full : forall tree w roots inv,
+  wf inv ->
+  let inv0 := apply_ops inv (r_ops (run_sync Dry tree w roots inv)) in
+  let f := run_sync Force tree w roots inv0 in
+  r_status f = 0%N ->
+  let inv' := apply_ops inv0 (r_ops f) in
+  let d2 := run_sync Dry tree w roots inv' in
+  inv0 = inv /\
+  exists specs, discover tree roots = Ok specs /\
+  announced_removals (r_out d2) = [] /\ announced_indexing (r_out d2) = [] /\
+  announced_up_to_date (r_out d2) = map sp_name specs /\ r_status d2 = 0%N /\
+  r_out d2 = map utd_line specs ++ [LPassF] /\
+  shard_ops (r_ops (run_sync Force tree w roots inv')) = [].
+Proof.
+  intros tree w roots inv Hwf inv0.
+  assert (E0 : inv0 = inv) by (unfold inv0; rewrite run_sync_dry_ops; reflexivity).
+  rewrite E0. intros f Hst. cbv zeta.
+  destruct (sync_force_converges tree w roots inv Hwf Hst) as (specs & Ed & _).
+  pose proof (sync_idempotent tree w roots inv specs Hwf Ed (discover_distinct_sources _ _ _ Ed)) as H.
+  cbv zeta in H. rewrite run_sync_dry_ops in H. cbn [apply_ops fold_left] in H. specialize (H Hst).
+  destruct H as (_ & H1 & H2 & H3 & H4 & H5).
+  destruct (sync_second_preview tree w roots inv specs Hwf Ed (discover_distinct_sources _ _ _ Ed) Hst) as (Hout & _ & _).
+  split; [reflexivity|]. exists specs. repeat split; assumption.
+Qed.
+
+Theorem sync_idempotent_any_status_full : forall tree w roots inv specs,
+  wf inv -> discover tree roots = Ok specs -> existsb sh_bad inv = false ->
+  let f := run_sync Force tree w roots inv in
+  let d2 := run_sync Dry tree w roots (apply_ops inv (r_ops f)) in
+  announced_removals (r_out d2) = [] /\ announced_indexing (r_out d2) = [] /\
+  announced_up_to_date (r_out d2) = map sp_name (filter (indexable w) specs) /\
+  r_status d2 = r_status f /\ r_ops d2 = [].
+Proof.
+  intros tree w roots inv specs Hwf Ed Eb.
+  exact (sync_idempotent_any_status tree w roots inv specs Hwf Ed (discover_distinct_sources _ _ _ Ed) Eb).
 Qed.
